@@ -5,7 +5,9 @@ import random
 from vlib import *
 
 SD = os.path.join(SPEC, "countingptr")
-CODE = {"new": (0,), "reset_handle": (1,), "unify": (2,), "copy_assign": (3,), "move_assign": (4,), "copy_construct": (5,), "move_construct": (6,), "swap": (7, 8)}
+# several C++ forms per abstract operation: 9 = make_counting, 10 = assignment of nullptr, 11 = CountingPtr(b.get()) (raw pointer to a managed object), 12 = *a = *b
+CODE = {"new": (0, 9), "reset_handle": (1, 10), "unify": (2,), "copy_assign": (3, 11), "move_assign": (4,), "copy_construct": (5,), "move_construct": (6,), "swap": (7, 8),
+        "assign_object": (12,)}
 VS = os.path.join(HARNESS, "vsched", "vsched.cpp")
 SHIM = ["-include", "vsched/vsched.hpp"]
 
@@ -23,7 +25,7 @@ def random_seq_ops(rng, n):
     ptr = {h: 0 for h in range(1, 6)}
     ops = []
     while len(ops) < n:
-        o = rng.choice(["new"] * 3 + ["reset_handle", "unify", "copy_assign", "copy_assign", "move_assign", "move_assign", "copy_construct", "move_construct", "swap"])
+        o = rng.choice(["new"] * 3 + ["reset_handle", "unify", "copy_assign", "copy_assign", "move_assign", "move_assign", "copy_construct", "move_construct", "swap", "assign_object"])
         a, b = rng.randint(1, 5), rng.randint(1, 5)
         conv = (b >= 4) or (a <= 3)
         live = set(ptr.values()) - {0}
@@ -49,6 +51,8 @@ def random_seq_ops(rng, n):
         elif o == "move_construct":
             if not conv or a == b: continue
             ptr[a], ptr[b] = ptr[b], 0
+        elif o == "assign_object":
+            if not conv or not ptr[a] or not ptr[b]: continue
         elif o == "swap":
             if (a <= 3) != (b <= 3): continue
             ptr[a], ptr[b] = ptr[b], ptr[a]
@@ -81,7 +85,7 @@ def run(ctx):
                        "2-3 threads x programs of <= 3 operations (enumerated by TLC and forced onto the code through the scheduler shim), plus PCT / "
                        "random schedules of longer programs; non-trivial = >= 2 operations; distinct by content")
     # ---- sequential half
-    tlc_mc(ctx, SD, "CPtrA", "mc_cptr.cfg", workers=4, require_actions=("New", "CopyAssign", "MoveAssign", "CopyConstruct", "MoveConstruct", "Reset", "Swap", "Unify"))
+    tlc_mc(ctx, SD, "CPtrA", "mc_cptr.cfg", workers=4, require_actions=("New", "CopyAssign", "MoveAssign", "CopyConstruct", "MoveConstruct", "Reset", "Swap", "Unify", "AssignObject"))
     gen = (consts({"BaseH": "{1, 2}" if quick else "{1, 2, 3}", "DerivedH": "{4}" if quick else "{4, 5}", "MaxObj": 3}) +
            "SPECIFICATION GenSpec\nVIEW View\nACTION_CONSTRAINT Edge\nCHECK_DEADLOCK FALSE\n")
     edges, st = tlc_gen(ctx, SD, "Gen_CPtr", "gen_cptr.cfg", workers=1, cfg_text=gen, timeout=1800, xmx="8g")
